@@ -6,8 +6,10 @@ ALL = ["C%02d" % i for i in range(1, 21)]
 
 import glob
 CHECKS = {}
+_enabled = open(os.path.join(VERIF, "manifest.d", "ENABLED")).read().split()   # registered by the coordinator only
 for _p in sorted(glob.glob(os.path.join(VERIF, "manifest.d", "C*.json"))):
-    CHECKS[os.path.basename(_p)[:-5]] = json.load(open(_p))   # keys: category, design_ref, text, note, technique
+    if os.path.basename(_p)[:-5] in _enabled:
+        CHECKS[os.path.basename(_p)[:-5]] = json.load(open(_p))   # keys: category, design_ref, text, note, technique
 REASONS = {}
 _r = os.path.join(VERIF, "manifest.d", "not_applicable.json")
 if os.path.exists(_r):
